@@ -91,7 +91,7 @@ impl CFGError {
                 report
             }
             ParameterNameCollisionError { name, file_id, file_location } => {
-                let mut report = Report::warning(
+                let mut report = Report::error(
                     format!("Parameter `{name}` declared multiple times."),
                     ReportCode::ParameterNameCollision,
                 );
